@@ -1475,7 +1475,7 @@ def _merge_dicts(dict1, dict2, list_merge_func, item_merger, max_levels=0):
     for key2, value2 in dict2.items():
         if key2 not in result:
             result[key2] = value2
-    return result
+    return utils.FrozenDict(result)
 
 
 @specs.method
